@@ -1013,7 +1013,10 @@ struct SchedCollected {
 }
 
 fn sched_collect(rep: &Reporter, prop: &str, tier: &str) -> SchedCollected {
-    let n = std::thread::available_parallelism().map(|n| n.get()).unwrap_or(8);
+    let n = std::env::var("VX_SHARDS")
+        .ok()
+        .and_then(|s| s.parse().ok())
+        .unwrap_or_else(|| std::thread::available_parallelism().map(|n| n.get()).unwrap_or(8));
     let exe = std::env::current_exe().unwrap();
     let children: Vec<std::process::Child> = (0..n)
         .map(|i| {
